@@ -30,7 +30,9 @@ def main():
     import mon_comp as M
     fams = ["dtank", "dqtank", "dqarc", "daltarc"]
     for fam in fams:
-        KC.correspondence(rep, fam, 1200 if thorough else 120, 24 if thorough else 14, tag="c11")
+        # (results longer than 40 digits are not sent to Coq: decay factors with fractional exponents make the exact
+        # rationals of long histories grow quickly; the count is in the evidence)
+        KC.correspondence(rep, fam, 1000 if thorough else 120, 18 if thorough else 14, tag="c11", maxdigits=40)
     seen = M.monitor(rep, PID, fams, 2400 if thorough else 200, 24 if thorough else 14)
     C.apply_known(rep, PID, seen)
     rule = ("correspondence: generic_temperature_decay(_c) on random fluxes, decay tables (constants 0..3/2, exponents "
